@@ -380,7 +380,10 @@ pub fn chapoly_decrypt_ietf(
 ) -> Result<Vec<u8>, ChaPolyDecryptError> {
     let nonce = chapoly::Nonce::from_slice(nonce).expect("Nonce must be 12 bytes");
     let key = chapoly::SecretKey::from_slice(key).expect("Key must be 32 bytes");
-    let pt_size = std::cmp::max(ciphertext.len() - TAG_SIZE, 0);
+    if ciphertext.len() < TAG_SIZE {
+        return Err(ChaPolyDecryptError);
+    }
+    let pt_size = ciphertext.len() - TAG_SIZE;
     let mut plaintext = vec![0u8; pt_size];
 
     chapoly::open(
